@@ -83,6 +83,56 @@ func wsPair() (cw *ws.Conn, csw *swConn, sr *ws.Conn, ssw *swConn) {
 	return
 }
 
+// wsLink is a client and a server websocket connection with their byte streams under the
+// harness's control: what the client sends is collected in wire, the server reads what the
+// harness feeds; nothing is left pointing at the handshake pipe (a close frame written on a
+// protocol error must not block).
+type wsLink struct {
+	csock, ssock socket.Socket
+	wire         bytes.Buffer
+	sink         bytes.Buffer
+	feed         *c05lib.ChunkRW
+	ssw          *swConn
+}
+
+func newLink(wsPF socket.ProtoFunc) *wsLink {
+	cw, csw, sr, ssw := wsPair()
+	l := &wsLink{feed: &c05lib.ChunkRW{}, ssw: ssw}
+	csw.w = &l.wire
+	csw.r = bytes.NewReader(nil)
+	ssw.r = l.feed
+	ssw.w = &l.sink
+	l.csock = socket.NewSocket(cw, wsPF)
+	l.ssock = socket.NewSocket(sr, wsPF)
+	return l
+}
+
+// readOne reads one message on the server side under a deadline; "" = timed out.
+func (l *wsLink) readOne() string {
+	done := make(chan string, 1)
+	go func() {
+		defer func() {
+			if e := recover(); e != nil {
+				done <- "sfail"
+			}
+		}()
+		m := socket.NewMessage(socket.WithNewBody(func(socket.Header) interface{} { return new([]byte) }))
+		if err := l.ssock.ReadMessage(m); err != nil {
+			done <- "sfail"
+			return
+		}
+		done <- c05lib.FieldsVal(m)
+	}()
+	select {
+	case v := <-done:
+		return v
+	case <-time.After(5 * time.Second):
+		return ""
+	}
+}
+
+const maxFailures = 6
+
 func main() {
 	cfg := ParseFlags()
 	r := cfg.Rng
@@ -116,14 +166,8 @@ func main() {
 	distinct := DistinctSet{}
 	kind := VS(*modeFlag)
 
-	cw, csw, sr, ssw := wsPair()
 	wsPF := websocket.NewWsProtoFunc(sub)
-	csock := socket.NewSocket(cw, wsPF)
-	ssock := socket.NewSocket(sr, wsPF)
-	var wire bytes.Buffer
-	csw.w = &wire
-	feed := &c05lib.ChunkRW{}
-	ssw.r = feed
+	link := newLink(wsPF)
 
 	direct := func(b []byte, chunks [][]byte) string {
 		fr, end, _ := c05lib.DecodeStream(sub, chunks)
@@ -138,7 +182,13 @@ func main() {
 		return fr[0]
 	}
 
+	evaluated := 0
 	for i := 0; i < cfg.N; i++ {
+		if len(st.OracleFailures) >= maxFailures {
+			st.Count("stopped-after-failures")
+			break // fail fast: the failures recorded so far carry their cases as replays
+		}
+		evaluated++
 		gz.ResetTab()
 		mode := r.Intn(20)
 		switch {
@@ -206,13 +256,80 @@ func main() {
 			}
 			w.Add(VL(VS("pack"), kind, VN(int64(lim)), VB(ids), gz.TabVal(), g.Val()), VL(packObs, unpObs))
 			distinct.Add(human)
-		case mode < 15: // k messages through the real websocket protocol
+		case mode >= 13 && mode < 15: // one message arriving in chunks while the same instance sends
+			st.Count("mode:duplex")
+			socket.SetMessageSizeLimit(c05lib.BigLim)
+			g := c05lib.GenMessage(r, st, pf)
+			if len(g.Body) > 20000 {
+				g.Body = g.Body[:20000]
+			}
+			ids := c05lib.GenIds(r, false)
+			out, res, _, _ := c05lib.PackOne(sub, g, ids)
+			if res != "ok" {
+				break
+			}
+			alone := direct(out, [][]byte{append([]byte(nil), out...)})
+			og := c05lib.GenMessage(r, st, pf)
+			if len(og.Body) > 2000 {
+				og.Body = og.Body[:2000]
+			}
+			oids := c05lib.GenIds(r, false)
+			human := c05lib.Clip(fmt.Sprintf("%s duplex ids=%x msg=%s", name, ids, g.Val()))
+			// (a) the sub-protocol alone on a full-duplex connection
+			busy, ok := c05lib.Duplex(sub, c05lib.Cuts(r, out), true,
+				func(pr socket.Proto) string { return c05lib.UnpackOne(pr).Val },
+				func(pr socket.Proto) {
+					defer func() { recover() }()
+					pr.Pack(og.NewMessage(oids))
+				})
+			c05lib.DuplexOracle(st, i, alone, busy, ok, human)
+			// (b) through the real websocket protocol: the server socket sends while the
+			// client's frame arrives in chunks
+			link.wire.Reset()
+			if err := link.csock.WriteMessage(g.NewMessage(ids)); err == nil {
+				wireBytes := append([]byte(nil), link.wire.Bytes()...)
+				a, b := MemPair()
+				link.ssw.r = b
+				done := make(chan string, 1)
+				go func() { done <- link.readOne() }()
+				chunks := c05lib.Cuts(r, wireBytes)
+				for ci, ch := range chunks {
+					a.Write(ch)
+					if ci == len(chunks)-1 {
+						break
+					}
+					a.WaitPeerIdle(5 * time.Second)
+					func() {
+						defer func() { recover() }()
+						link.ssock.WriteMessage(og.NewMessage(oids))
+					}()
+				}
+				got := <-done
+				if got != alone {
+					what := "is not decoded within the deadline"
+					if got != "" {
+						what = "decodes to " + c05lib.Clip(got) + ", alone to " + c05lib.Clip(alone)
+					}
+					st.Fail(i, "roundtrip", "a websocket message arriving in chunks while the server side sends "+what, human)
+					link = newLink(wsPF)
+				} else {
+					link.ssw.r = link.feed
+				}
+				a.Close()
+			}
+			obs := "sfail"
+			if ok {
+				obs = busy
+			}
+			w.Add(VL(VS("msgs"), kind, VN(c05lib.BigLim), gz.TabVal(), VL(VB(out))), VL(obs))
+			distinct.Add(human)
+		case mode < 13: // k messages through the real websocket protocol
 			st.Count("mode:ws-stream")
 			socket.SetMessageSizeLimit(c05lib.BigLim)
 			k := 1 + r.Intn(6)
 			var msgs [][]byte
 			var alone []string
-			wire.Reset()
+			link.wire.Reset()
 			for j := 0; j < k; j++ {
 				g := c05lib.GenMessage(r, st, pf)
 				if len(g.Body) > 20000 {
@@ -223,33 +340,40 @@ func main() {
 				if res != "ok" {
 					continue
 				}
-				before := wire.Len()
-				if err := csock.WriteMessage(g.NewMessage(ids)); err != nil {
-					wire.Truncate(before)
+				before := link.wire.Len()
+				if err := link.csock.WriteMessage(g.NewMessage(ids)); err != nil {
+					link.wire.Truncate(before)
 					continue
 				}
 				msgs = append(msgs, out)
 				alone = append(alone, direct(out, [][]byte{append([]byte(nil), out...)}))
 			}
-			stream := append([]byte(nil), wire.Bytes()...)
+			stream := append([]byte(nil), link.wire.Bytes()...)
 			human := c05lib.Clip(fmt.Sprintf("%s ws-stream messages=%d wire=%x", name, len(msgs), stream))
 			for ci, ch := range c05lib.Chunkings(r, stream) {
-				feed.Chunks = ch
+				link.feed.Chunks = ch
+				bad := false
 				for j := range msgs {
-					m := socket.NewMessage(socket.WithNewBody(func(socket.Header) interface{} { return new([]byte) }))
-					got := "sfail"
-					if err := ssock.ReadMessage(m); err == nil {
-						got = c05lib.FieldsVal(m)
+					got := link.readOne()
+					if got == "" {
+						st.Fail(i, "roundtrip", fmt.Sprintf("chunking %d: message %d of the websocket stream is not decoded within the deadline", ci, j), human)
+						bad = true
+						break
 					}
 					if got != alone[j] {
-						st.Fail(i, "stream-sync", fmt.Sprintf("chunking %d: message %d of the websocket stream decodes to %s, alone to %s", ci, j, c05lib.Clip(got), c05lib.Clip(alone[j])), human)
+						st.Fail(i, "roundtrip", fmt.Sprintf("chunking %d: message %d of the websocket stream decodes to %s, alone to %s", ci, j, c05lib.Clip(got), c05lib.Clip(alone[j])), human)
+						bad = true
 						break
 					}
 				}
-				feed.Skip()
-				if len(feed.Chunks) != 0 {
+				link.feed.Skip()
+				if !bad && len(link.feed.Chunks) != 0 {
 					st.Fail(i, "stream-sync", fmt.Sprintf("chunking %d: bytes left after the last message", ci), human)
-					feed.Chunks = nil
+					bad = true
+				}
+				if bad { // the connections are in an unknown state: a new pair
+					link = newLink(wsPF)
+					break
 				}
 			}
 			var items []string
@@ -290,7 +414,7 @@ func main() {
 		}
 	}
 	st.Distribution["unpack-panics"] = c05lib.Panics
-	st.Evaluations = cfg.N
+	st.Evaluations = evaluated
 	st.DistinctNontrivial = len(distinct)
 	st.Write(cfg, w)
 }
